@@ -773,6 +773,32 @@ func vxRowHolders(m *cqlspec.Metadata) []vxDest {
 	return out
 }
 
+// vxSkipSome: every third row is scanned with nil in some positions ("use nil as a dest value to skip the
+// corresponding column"; a tuple column takes one destination per element, each of which may be nil); what is
+// skipped is a function of the row index and the position only. The other destinations must still receive
+// their own cells.
+func vxSkipSome(dests []vxDest, row int, k *vstats.Case) []vxDest {
+	if row%3 != 2 {
+		return dests
+	}
+	out := append([]vxDest{}, dests...)
+	skipped, inTuple := false, false
+	for j := range out {
+		if (row/3+j)%3 == 0 && out[j].ptr.IsValid() {
+			out[j].ptr = reflect.Value{}
+			skipped = true
+			inTuple = inTuple || out[j].elem >= 0
+		}
+	}
+	if k != nil && skipped {
+		k.Class("row scanned with some nil destinations")
+		if inTuple {
+			k.Class("nil destination for a tuple element")
+		}
+	}
+	return out
+}
+
 // vxDestArgs turns the holders into Scan arguments (nil for opaque columns).
 func vxDestArgs(dests []vxDest) []interface{} {
 	args := make([]interface{}, len(dests))
@@ -1001,6 +1027,7 @@ func vxConsumeRows(iter *Iter, r *cqlspec.Response, consumer int, k *vstats.Case
 			if len(r.Rows)%2 == 1 {
 				dests = vxRowHolders(r.Meta)
 			}
+			dests = vxSkipSome(dests, i, k)
 			args := vxDestArgs(dests)
 			if !iter.Scan(args...) {
 				return fmt.Errorf("Scan returned false at row %d of %d: %v", i, len(r.Rows), iter.Close())
@@ -1023,6 +1050,7 @@ func vxConsumeRows(iter *Iter, r *cqlspec.Response, consumer int, k *vstats.Case
 			if len(r.Rows)%2 == 1 {
 				dests = vxRowHolders(r.Meta)
 			}
+			dests = vxSkipSome(dests, i, k)
 			args := vxDestArgs(dests)
 			if err := sc.Scan(args...); err != nil {
 				return fmt.Errorf("Scanner.Scan row %d: %v", i, err)
